@@ -13,9 +13,21 @@ Definition hdr_eqb (a b : hdr) : bool :=
   && Bool.eqb (h_ad a) (h_ad b) && Bool.eqb (h_cd a) (h_cd b) && (h_rcode a =? h_rcode b).
 Definition quest_eqb (a b : quest) : bool :=
   (q_name a =? q_name b) && (q_type a =? q_type b) && (q_class a =? q_class b) && (q_len a =? q_len b).
+Definition seg_eqb (a b : seg) : bool :=
+  match a, b with
+  | SFix x, SFix y => x =? y
+  | SName c x, SName d y => Bool.eqb c d && (x =? y)
+  | _, _ => false
+  end.
+Fixpoint segs_eqb (a b : list seg) : bool :=
+  match a, b with
+  | [], [] => true
+  | x :: xs, y :: ys => seg_eqb x y && segs_eqb xs ys
+  | _, _ => false
+  end.
 Definition rr_eqb (a b : rr) : bool :=
   (r_id a =? r_id b) && (r_owner a =? r_owner b) && (r_type a =? r_type b) && (r_class a =? r_class b)
-  && (r_ttl a =? r_ttl b) && (r_len a =? r_len b).
+  && (r_ttl a =? r_ttl b) && (r_len a =? r_len b) && segs_eqb (r_rd a) (r_rd b).
 Definition eopt_eqb (a b : eopt) : bool :=
   (e_code a =? e_code b) && (e_len a =? e_len b) && (e_data a =? e_data b).
 Fixpoint list_eqb {A} (eqb : A -> A -> bool) (a b : list A) : bool :=
@@ -160,49 +172,57 @@ Definition spec_raw (rx : N) (tr : transport) (c : cfg) (h : T_Header) (body : o
        end.
 
 Inductive case :=
-  (* one packet on a datagram / stream listener: raw header, the library's decode of the packet
-     (None: undecodable), whether the chain ran it wire-born, what the scripted last handler wrote
-     (None: nothing), the library's compressed Len of the shaped message, the observed reply with
-     its wire length and its uncompressed library Len *)
-| CaseRaw (tr : transport) (c : cfg) (h : T_Header) (body : option msg) (strict : bool) (dn : option msg)
-          (clen : N) (obs : option msg) (rlen oulen : N)
+  (* one packet on a datagram / stream listener: name table, raw header, the library's decode of the
+     packet (None: undecodable), whether the chain ran it wire-born, what the scripted last handler
+     wrote (None: nothing), the library's compressed Len of the shaped message measured on a twin run
+     (informational: the model computes its own), the observed reply with its wire length, its
+     uncompressed and its compressed library Len *)
+| CaseRaw (tr : transport) (c : cfg) (nt : ntab) (h : T_Header) (body : option msg) (strict : bool) (dn : option msg)
+          (clen : N) (obs : option msg) (rlen oulen oclen : N)
   (* the same, with a last handler that took the byte path: WireReady said yes and WriteWire was
      handed the response minus its OPT, packed to [blen] bytes, with WireInfo (hasd, ede);
      [dn] is the whole message it re-serves through WriteMsg on ErrWireFallback *)
-| CaseWire (tr : transport) (c : cfg) (h : T_Header) (body : option msg) (strict : bool) (dn : option msg)
-           (hasd : bool) (ede : option eopt) (blen clen : N) (obs : option msg) (rlen oulen : N)
+| CaseWire (tr : transport) (c : cfg) (nt : ntab) (h : T_Header) (body : option msg) (strict : bool) (dn : option msg)
+           (hasd : bool) (ede : option eopt) (blen clen : N) (obs : option msg) (rlen oulen oclen : N)
   (* one decoded query on the message entry (DoH, DoQ) *)
-| CaseMsg (tr : transport) (c : cfg) (q : msg) (dn : option msg) (clen : N) (obs : option msg) (rlen oulen : N)
+| CaseMsg (tr : transport) (c : cfg) (nt : ntab) (q : msg) (dn : option msg) (clen : N) (obs : option msg) (rlen oulen oclen : N)
   (* one decoded single-question query handed straight to a Chain [edns; last handler]
      (sub-pipeline / embedder entry: no header accept, no QDCOUNT guard) *)
-| CaseChain (tr : transport) (c : cfg) (q : msg) (strict : bool) (dn : option msg) (clen : N) (obs : option msg) (rlen oulen : N)
-  (* the same input judged without the clauses a KNOWN finding breaks (such inputs are emitted
-     twice: once in full — expected to fail, tolerated by its fkey — and once relaxed — must pass,
-     so that a known finding never hides a different failure on the same input) *)
+| CaseChain (tr : transport) (c : cfg) (nt : ntab) (q : msg) (strict : bool) (dn : option msg) (clen : N) (obs : option msg)
+            (rlen oulen oclen : N)
+  (* the same input judged without the clauses a KNOWN finding breaks (unused since fb9758c) *)
 | CaseRelax (rx : N) (c : case).
 
-Definition ulen_ok (obs : option msg) (oulen : N) : bool :=
-  match obs with Some r => msg_ulen r =? oulen | None => true end.
+(* the model's two length computations agree with the library's on the observed reply, and the
+   lengths the records carry agree with the name table *)
+Definition lens_ok (nt : ntab) (obs : option msg) (oulen oclen : N) : bool :=
+  match obs with
+  | Some r => (msg_ulen r =? oulen) && (msg_clen nt r =? oclen) && msg_wf nt r
+  | None => true
+  end.
+Definition omsg_wf (nt : ntab) (m : option msg) : bool := match m with Some x => msg_wf nt x | None => true end.
 
 Fixpoint check_case (x : case) : bool :=
   match x with
-  | CaseRaw tr c h body strict dn clen obs rlen oulen =>
-      omsg_eqb (serve_raw tr c h body strict dn clen) obs && ulen_ok obs oulen
-  | CaseWire tr c h body strict dn hasd ede blen clen obs rlen oulen =>
-      omsg_eqb (serve_raw_gen (wire_then_msg tr c hasd ede blen clen) tr c h body strict dn) obs && ulen_ok obs oulen
-  | CaseMsg tr c q dn clen obs rlen oulen =>
-      omsg_eqb (serve_msg tr c q false dn clen) obs && ulen_ok obs oulen
-  | CaseChain tr c q strict dn clen obs rlen oulen =>
-      omsg_eqb (option_map (transport_write tr) (edns_serve tr c q strict dn clen)) obs && ulen_ok obs oulen
+  | CaseRaw tr c nt h body strict dn clen obs rlen oulen oclen =>
+      omsg_eqb (serve_raw_c nt tr c h body strict dn) obs && lens_ok nt obs oulen oclen && omsg_wf nt dn
+  | CaseWire tr c nt h body strict dn hasd ede blen clen obs rlen oulen oclen =>
+      omsg_eqb (serve_raw_gen (wire_then_msg_c nt tr c hasd ede blen) tr c h body strict dn) obs
+      && lens_ok nt obs oulen oclen && omsg_wf nt dn
+  | CaseMsg tr c nt q dn clen obs rlen oulen oclen =>
+      omsg_eqb (serve_msg_c nt tr c q false dn) obs && lens_ok nt obs oulen oclen && omsg_wf nt dn
+  | CaseChain tr c nt q strict dn clen obs rlen oulen oclen =>
+      omsg_eqb (option_map (transport_write tr) (edns_serve_c nt tr c q strict dn)) obs
+      && lens_ok nt obs oulen oclen && omsg_wf nt dn
   | CaseRelax _ y => check_case y
   end.
 
 Definition spec_top (rx : N) (x : case) : bool :=
   match x with
-  | CaseRaw tr c h body _ _ _ obs rlen _ => spec_raw rx tr c h body obs rlen
-  | CaseWire tr c h body _ _ _ _ _ _ obs rlen _ => spec_raw rx tr c h body obs rlen
-  | CaseMsg tr c q _ _ obs rlen _ => spec_msg rx tr c q obs rlen
-  | CaseChain tr c q _ _ _ obs rlen _ => negb (length (m_q q) =? 1)%nat || spec_msg rx tr c q obs rlen
+  | CaseRaw tr c _ h body _ _ _ obs rlen _ _ => spec_raw rx tr c h body obs rlen
+  | CaseWire tr c _ h body _ _ _ _ _ _ obs rlen _ _ => spec_raw rx tr c h body obs rlen
+  | CaseMsg tr c _ q _ _ obs rlen _ _ => spec_msg rx tr c q obs rlen
+  | CaseChain tr c _ q _ _ _ obs rlen _ _ => negb (length (m_q q) =? 1)%nat || spec_msg rx tr c q obs rlen
   | CaseRelax _ _ => true
   end.
 
